@@ -373,6 +373,22 @@ def derive(lines, impl):
             n = len(ids)
             if bs > 1: reg("%s.pw o.pwm_agree %s %d" % (cid, A, bs), True)
             reg("%s.t tentative %d %d %s" % (cid, n, count, ivec_tokens(ids)))
+            if op == "pointwise_aggregates" and n > 0 and count % bs == 0:
+                # transfer_operators() WITH a near-null space on the same matrix: nullspace.cols = min_aggregate
+                # (what the policies pass), B = a "dyadic exact" block per block aggregate of the implementation's ids
+                cols = max(1, mina)
+                rr = random.Random("ns" + cid)
+                iid = [int(x) for x in ids]
+                Bm = [[_dy(rr) for _ in range(cols)] for _ in range(n)]
+                for a_ in range(count // bs):
+                    mem = [k for k in range(n) if iid[k] >= 0 and iid[k] // bs == a_]
+                    blk = exact_block(rr, len(mem), cols)
+                    for jj, k in enumerate(mem): Bm[k] = blk[jj]
+                Bt = fmt_vec([x for row in Bm for x in row])
+                head = " ".join([A, tok[p], tok[p + 1], str(bs), str(cols)])
+                reg("%s.na ns_aggregation %s %s" % (cid, head, Bt))
+                reg("%s.ns ns_sa %s %s %s %s" % (cid, head, fmt_q(rr.choice(RELAX)), fmt_q(C23), Bt))
+                reg("%s.ne ns_emin %s %s" % (cid, head, Bt))
             if bs == 1 and mina <= 1:
                 reg("%s.op o.partition %s %d %s %s" % (cid, A, count, ivec_tokens(ids), ivec_tokens(fl)), True)
         elif op in ("aggregation", "sa", "sa_gersh", "rs", "kron_sa", "emin"):
@@ -474,10 +490,38 @@ def ns_close(io, mo, hz, cols, tol):
     return None
 
 
+FX_OPS = ("pointwise_aggregates", "ns_aggregation", "ns_sa", "ns_emin")
+
+def repaired(ctx):
+    """1 if the tree under test has the repaired remove_small_aggregates (`if (!m) throw error::empty_level();`:
+    removing EVERY aggregate is reported as empty_level instead of returning count = 0, finding
+    C03-empty-coarse-level-direct-solver-crash); the model then uses TentativeQrPolicies.pointwise_aggregates_fx true"""
+    try:
+        src = open(os.path.join(ctx["repo"], "amgcl", "coarsening", "pointwise_aggregates.hpp")).read()
+    except (OSError, KeyError):
+        return 0
+    return 1 if "if (!m) throw error::empty_level();" in src else 0
+
+def with_fx(lines, fx):
+    """append the repaired-tree flag token (fx0 / fx1) to the case lines of the ops whose model depends on it; the C++ driver
+    ignores it.  A flag already present (replayed case) is replaced by the one of the tree under test."""
+    out = []
+    for l in lines:
+        t = l.split(" ")
+        if len(t) > 1 and t[1] in FX_OPS:
+            if t[-1] in ("fx0", "fx1"): t = t[:-1]
+            t.append("fx%d" % fx)
+            l = " ".join(t)
+        out.append(l)
+    return out
+
+
 ONE = {"OMP_NUM_THREADS": "1"}
 
 def run(ctx, cases_override=None):
-    lines = cases_override or cases(ctx["tier"], ctx["seed"])
+    fx = repaired(ctx)
+    ctx["log"].append(("tree under test has the repaired remove_small_aggregates (empty_level when every aggregate is removed)", fx))
+    lines = with_fx(cases_override or cases(ctx["tier"], ctx["seed"]), fx)
     fails = []
     exact = [l for l in lines if not l.split(" ", 2)[1].startswith(("d.", "o."))]
     dbl = [l for l in lines if l.split(" ", 2)[1].startswith("d.")]
@@ -510,6 +554,7 @@ def run(ctx, cases_override=None):
     fails += f
     # ---- stage 2: derived comparisons and oracles
     d2, orc, origin = derive(exact, impl)
+    d2 = with_fx(d2, fx)
     f2, impl2, model2 = diff_run(ctx, "coarsen", d2, env=ONE)
     for x in f2: x["theorem"] = "correspondence drv_coarsen (%s, on implementation-produced operators) vs model" % x["op"]
     fails += f2
